@@ -73,6 +73,14 @@ CLAIMED = {
             "proportional to power and summing to <= collected, supply growth + new in-flight value <= collected, fee record in [0, fee paid] in external units and = fee - refund where visible exactly.",
             "Proportionality tolerance = truncation of the 2^32 normalisation (total/2^28) + 3 units.",
             "DESIGN.md §4 C19"),
+    "C01": ("exploration",
+            "stateful property-based testing (rapid): cross-component solvency invariant in exact rationals after every step",
+            "Whole-bridge histories in which hub users own only what external deposits brought in (deposits and cross-chain transfers of any amount/fee/destination, decimals 0..24, commissions, holder "
+            "discounts, sends, cancels, batch requests, executions limited by each chain's own custody, timeouts, expiry refunds, fee/commission re-minting). After every step and per denom: "
+            "supply + value of all in-flight transfers - payouts already made externally but not yet observed <= custody of all external chains; supply never grows in a user message.",
+            "Custody is kept by the abstract external chains: a deposit locks exactly the event's Amount (as Hub2.transferToChain / the Minter multisig do), an executed batch pays out its members' amounts. "
+            "Governance proposals are outside the quantifier. The Byzantine-minority part of the quantifier is exercised by C14 (claim identity) and C02.",
+            "DESIGN.md §4 C01"),
 }
 
 NOT_YET = "check not built yet in this round (planned in DESIGN.md §4); not claimed until its machinery exists"
